@@ -1,5 +1,7 @@
 """C20 - Geoid heights depend only on data and position, never on cache history."""
+import json
 import os
+import subprocess
 import vlib
 
 LEVEL = 'model_checking'
@@ -7,15 +9,19 @@ LEVEL_TEXT = ('The Geoid object is modelled as a TLA+ state machine (cache flag/
               'documented bilinear interpolation (integer arithmetic on a dyadic lattice) independent of the state; TLC explores every '
               'operation history up to the depth bound and every lattice position, each is replayed on real Geoid objects reading '
               'synthetic .pgm rasters, and TLC validates every observation (exact value, bit-equality with a fresh and a thread-safe '
-              'object, cache inspectors, throw contract). Cubic mode is bound by the polynomial-reproduction law and the equality laws; '
-              'random rasters/histories and enumerated file faults extend coverage.')
+              'object, cache inspectors, throw contract). Cubic mode is bound by the polynomial-reproduction law (interior rows, and the two polar '
+              'cell rows with the documented pole constraint) and the equality laws; random rasters/histories and enumerated file faults '
+              'extend coverage; GeoidEval built from the tree is run on the same raster and its printed heights / conversions are decided by TLC.')
 DESIGN_REF = 'DESIGN.md section 4, C20'
 LEVEL_NOTE = ('Trusted: TLC, Geoid.tla, the pixel formulas shared by spec and driver. The cubic coefficient tables are bound through the '
-              'law that a least-squares cubic fit reproduces a cubic polynomial raster exactly (interior cells), not by re-deriving the tables.')
+              'law that a least-squares cubic fit reproduces a cubic polynomial raster exactly (interior cells: any cubic; polar cell rows: any '
+              'cubic that is constant along the pole, continued by the documented reflection), not by re-deriving the tables.')
 TECHNIQUE = 'TLA+ state machine + TLC history enumeration, spec-to-code replay, stateful TLC trace validation'
 
+POLAR = ('ppoly', 36, 19, True, False)      # polar cell rows of the cubic interpolation: lattice value law + short histories
+
 CFG = ('INIT Init\nNEXT Next\nCONSTANTS W = %d H = %d Kind = "%s" Cubic = %s TS = %s Depth = %d Part = "%s" Stride = %d NChunks = 32\n'
-       'INVARIANTS BilinearInv PixInv HistInv Emit\nCHECK_DEADLOCK FALSE\n')
+       'INVARIANTS BilinearInv PixInv PPolyInv HistInv Emit\nCHECK_DEADLOCK FALSE\n')
 TCFG = 'INIT Init\nNEXT Next\nCONSTANTS W = %d H = %d Kind = "%s"\nPOSTCONDITION Summary\nCHECK_DEADLOCK FALSE\n'
 
 
@@ -27,6 +33,70 @@ def op_line(op):
     return ' '.join(str(x) for x in op)
 
 
+def run_tool(exe, args, lines):
+    """Feed the lines to GeoidEval; returns (list of output lines, exit status)."""
+    try:
+        p = subprocess.run(['timeout', '60', exe] + args, input=''.join(l + '\n' for l in lines).encode(),
+                           stdout=subprocess.PIPE, stderr=subprocess.PIPE)
+    except OSError as e:
+        raise vlib.FrameworkError('cannot run %s: %s' % (exe, e))
+    if p.returncode == 124:
+        raise vlib.FrameworkError('tool timeout: %s %s' % (exe, args))
+    return p.stdout.decode('latin-1').split('\n')[:-1], p.returncode
+
+
+def dec(num, den):
+    """Exact decimal text of num/den (den a power of two <= 8)."""
+    sgn, num = ('-' if num < 0 else ''), abs(num)
+    return '%s%d.%03d' % (sgn, num // den, (num % den) * 1000 // den)
+
+
+def tool_stage(ctx, tmpdir):
+    """GeoidEval built from the tree under test, run on the synthetic polynomial raster at TLC-chosen positions / heights.
+    Only executes and logs (options, input and output tokens as byte codes); Trace_Geoid (ToolOK) decides."""
+    kind, W, H = 'poly', 36, 19
+    exe = vlib.build_tool('GeoidEval')
+    cfg = ctx.cfg('MC_Geoid_tool', CFG % (W, H, kind, 'TRUE', 'FALSE', 0, 'tool', 1))
+    tv = sorted(v[1:] for v in ctx.generate('MC_Geoid', cfg, workers=2, timeout=3000) if v[0] == 't')
+    if len(tv) < 20:
+        raise vlib.FrameworkError('tool stage: too few vectors (%d)' % len(tv))
+    name = '%s%dx%d' % (kind, W, H)
+    if not os.path.exists(os.path.join(tmpdir, name + '.pgm')):
+        raise vlib.FrameworkError('tool stage: raster %s missing' % name)
+    base = ['-d', tmpdir, '-n', name]
+    # positions in eighths of a cell: lat = 90 - Y8 * 10/8, lon = X8 * 10/8 (exact decimals); height = k/4 m
+    pos = lambda x, y: '%s %s' % (dec(90 * 8 - y * 10, 8), dec(x * 10, 8))
+    area = ['-c', '50', '10', '75', '40']
+    runs = [('n', True, []), ('n', False, ['-l']), ('n', True, ['-a']), ('n', True, area), ('n', False, ['-l', '-a']), ('n', False, ['-l'] + area),
+            ('m2h', True, ['--msltohae']), ('h2m', True, ['--haetomsl']), ('m2h', False, ['-l', '--msltohae']), ('h2m', False, ['-l', '--haetomsl', '-a']),
+            ('m2h', True, ['-a', '--msltohae']), ('rt', True, []), ('rt', False, ['-l'])]
+    recs = []
+    for mode, cubic, opts in runs:
+        vec = sorted(set((x, y, 0) for (x, y, k) in tv)) if mode == 'n' else tv
+        lines = [pos(x, y) + ('' if mode == 'n' else ' ' + dec(k, 4)) for (x, y, k) in vec]
+        if mode == 'rt':        # --msltohae piped into --haetomsl
+            mid, st1 = run_tool(exe, base + opts + ['--msltohae'], lines)
+            out, st = run_tool(exe, base + opts + ['--haetomsl'], mid)
+            st = st or st1
+        else:
+            out, st = run_tool(exe, base + opts, lines)
+        for i, (x, y, k) in enumerate(vec):
+            has = i < len(out) and len(out) == len(lines)
+            recs.append(dict(e='tool', mode=mode, cubic=cubic, opts=' '.join(opts), x=x, y=y, hq=k, status=st, has=has,
+                             inp=[list(t.encode()) for t in lines[i].split()],
+                             tok=[list(t.encode('latin-1')) for t in out[i].split()] if has else []))
+    tf = ctx.path('trace_tool.ndjson')
+    vlib.write_lines(tf, [json.dumps(r, separators=(',', ':')) for r in recs])
+    ctx.cov['behaviours_replayed'] += len(recs)
+    tcfg = ctx.cfg('Trace_Geoid_tool', TCFG % (W, H, kind))
+    n, rej = ctx.validate('Trace_Geoid', tcfg, tf, shards=1, group_key=None)
+    ctx.cov['traces_validated_against_impl'] += 1
+    ctx.report_rejects(rej, tf)
+    ctx.law('tool-runs', len(runs))
+    ctx.law('tool-lines', len(recs))
+    ctx.sample(json.dumps(recs[0], separators=(',', ':'))[:300])
+
+
 def run(ctx):
     depth = 3 if ctx.quick else 4
     exe = vlib.build_driver('drv_geoid', 'plain')
@@ -34,11 +104,11 @@ def run(ctx):
     tmpdir = ctx.path('rasters')
     os.makedirs(tmpdir, exist_ok=True)
     configs = [('grid', 90, 91, False, False), ('grid', 90, 91, False, True), ('poly', 36, 19, True, False),
-               ('poly', 36, 19, True, True), ('grid', 90, 91, True, False), ('poly', 36, 19, False, False)]
+               ('poly', 36, 19, True, True), ('grid', 90, 91, True, False), ('poly', 36, 19, False, False), POLAR]
     for (kind, W, H, cubic, ts) in configs:
         label = '%s_%s_%s' % (kind, 'cub' if cubic else 'bil', 'ts' if ts else 'plain')
         # ---- M1: histories (state graph) -------------------------------------------------
-        d = depth if not ts else 2
+        d = depth if not ts and kind != 'ppoly' else 2
         cfg = ctx.cfg('MC_Geoid_hist_' + label, CFG % (W, H, kind, tl(cubic), tl(ts), d, 'hist', 1))
         hv = ctx.generate('MC_Geoid', cfg, workers=vlib.NCPU, timeout=3000)
         rows = []
@@ -48,8 +118,8 @@ def run(ctx):
                 rows += [op_line(op) for op in v[1]]
         ctx.cov['behaviours_replayed'] += sum(1 for v in hv if v[0] == 'hist')
         # ---- M1: lattice of positions (only where the value law applies) -------------------
-        if (kind == 'grid' and not cubic) or (kind == 'poly' and cubic and not ts):
-            stride = (5 if kind == 'grid' else 3) if ctx.quick else 1
+        if (kind == 'grid' and not cubic) or (kind in ('poly', 'ppoly') and cubic and not ts):
+            stride = (5 if kind == 'grid' else 3 if kind == 'poly' else 1) if ctx.quick else 1
             cfg = ctx.cfg('MC_Geoid_lat_' + label, CFG % (W, H, kind, tl(cubic), tl(ts), 0, 'lat', stride))
             lv = [v for v in ctx.generate('MC_Geoid', cfg, workers=vlib.NCPU, timeout=3000) if v[0] == 'q']
             lv.sort(key=lambda v: (v[2], v[1]))          # sweep order: consecutive queries share cells
@@ -77,6 +147,8 @@ def run(ctx):
             for i, ln in enumerate(f):
                 if i in (0, 1, 2):
                     ctx.sample(ln.strip()[:300])
+    # ---- the command-line tool on the same synthetic raster -------------------------------------
+    tool_stage(ctx, tmpdir)
     # ---- M3: random rasters, random histories, file faults ----------------------------------
     rt = ctx.path('trace_rnd.ndjson')
     rc, err = ctx.drive(exe_san, ['record', tmpdir, ctx.seed, 400 if ctx.quick else 20000], outfile=rt)
@@ -93,10 +165,12 @@ def run(ctx):
     return ctx.finish(RULE, TRUSTED)
 
 
-RULE = ('TLC enumerates every operation history of length Depth over 22 operations (13 height queries chosen to hit the same cell, '
-        'adjacent cells, the longitude seam, lon=+-180, both poles, a shifted period; 7 CacheArea requests incl. seam-crossing, polar, '
-        'empty and full-circle; CacheAll; CacheClear) for plain and thread-safe objects, bilinear and cubic, and every position of the '
-        'eighth-cell lattice; each history is replayed on a fresh real object. distinct_nontrivial = histories + lattice positions.')
+RULE = ('TLC enumerates every operation history of length Depth over 24 operations (13 height queries chosen to hit the same cell, '
+        'adjacent cells, the longitude seam, lon=+-180, both poles, a shifted period; 9 CacheArea requests incl. seam-crossing, polar, '
+        'empty, zero-height (south = north) and full-circle; CacheAll; CacheClear) for plain and thread-safe objects, bilinear and cubic, '
+        'and every position of the eighth-cell lattice (for the polar raster: of the two polar cell rows); each history is replayed on a '
+        'fresh real object. GeoidEval: 13 runs (no option, -l, -a, -c, --msltohae, --haetomsl, the pipe of the two) at the 13 query positions '
+        'x 4 heights. distinct_nontrivial = histories + lattice positions + tool lines.')
 TRUSTED = ['TLC', 'Geoid.tla', 'pixel formulas shared by Geoid.tla and drv_geoid.cpp']
 
 
